@@ -547,6 +547,142 @@ def pretc_cases(ctx, h, schema, pop, model_exe, workdir, exit_thr):
     return prop, corr
 
 
+CXR_EXPRESS = """SCHEMA cxr;
+ENTITY cr SUPERTYPE OF (ca ANDOR cb);
+  n : NUMBER;
+  o : OPTIONAL STRING;
+END_ENTITY;
+ENTITY ca SUBTYPE OF (cr);
+  SELF\\cr.n : INTEGER;
+  x : INTEGER;
+  xs : STRING;
+END_ENTITY;
+ENTITY cb SUBTYPE OF (cr);
+  y : BOOLEAN;
+  z : OPTIONAL INTEGER;
+END_ENTITY;
+END_SCHEMA;
+"""
+# the parts of (CA CB CR) as STEPcomplex builds them (ExplicitAttr of each entity, redefining descriptors included):
+# (part, [(name or None for a redefining entry, base kind, optional, conforming value)])
+CXR_PARTS = [("CA", [(None, None, None, None), ("x", "INTEGER", False, "5"), ("xs", "STRING", False, "'s'")]),
+             ("CB", [("y", "BOOLEAN", False, ".T."), ("z", "INTEGER", True, "$")]),
+             ("CR", [("n", "NUMBER", False, "7"), ("o", "STRING", True, "$")])]
+
+
+def complex_redecl_cases(ctx, b, model_exe, workdir, exit_thr):
+    """complex instances whose parts carry redefining entries (an ANDOR member that redeclares an attribute of its supertype), both
+    encodings: conforming; every attribute position of every part `$` / absent; in the older encoding the redefining entry of the
+    FIRST part given `$` / nothing / a literal.  Implementation (harness read / readpre) against `complexReadLS` (driver readx) and
+    against the decision table."""
+    prop, corr = [], []
+    os.makedirs(workdir, exist_ok=True)
+    exp = os.path.join(workdir, "cxr.exp")
+    open(exp, "w").write(CXR_EXPRESS)
+    exe = os.path.join(workdir, "h_p21")
+    B.gen_schema_lib(b, exp, os.path.join(workdir, "gen"), [HARNESS], exe)
+    h = Harness(exe, b.env())
+    try:
+        cases = []
+        for tc in (1, 0):
+            def build(over=None, rd_tok=None):
+                txt, words = [], []
+                for pi, (pn, attrs) in enumerate(CXR_PARTS):
+                    tv, tw = [], []
+                    for ai, (nm, base, opt, val) in enumerate(attrs):
+                        if nm is None:
+                            if tc:
+                                tw.append("RD")
+                            else:
+                                t_, w_ = rd_tok if (rd_tok and pi == 0) else ("*", "ST")
+                                tv.append(t_); tw.append("RD:" + w_)
+                            continue
+                        v, tok = val, ("M1" if val == "$" else "LNULL")
+                        if over and over[0] == pi and over[1] == ai:
+                            v, tok = ("$", "M1") if over[2] else ("", "M0")
+                        tv.append(v)
+                        tw.append(f"{base}:{1 if opt else 0}:0:0:0:{tok}")
+                    txt.append(f"{pn}({','.join(tv)})")
+                    words.append(" ".join(tw))
+                return "#1=(" + "".join(txt) + ");", "X " + " ; ".join(words)
+            cases.append((tc, "conforming", None, None) + build())
+            for pi, (pn, attrs) in enumerate(CXR_PARTS):
+                for ai, (nm, base, opt, val) in enumerate(attrs):
+                    if nm is None:
+                        continue
+                    for dollar in (True, False):
+                        cases.append((tc, f"{pn.lower()}.{nm} {'`$`' if dollar else 'absent'}", (pi, ai, dollar), None) + build(over=(pi, ai, dollar)))
+            if not tc:
+                for t_, w_ in (("$", "M1"), ("", "M0"), ("12", "LNULL")):
+                    cases.append((tc, f"redefining entry of the first part given `{t_}`", None, (t_, w_)) + build(rd_tok=(t_, w_)))
+        lines = [f"readx {tc} {strict} | {words}" for tc, _, _, _, _, words in cases for strict in (0, 1)]
+        mr = subprocess.run([model_exe], input="\n".join(lines) + "\n", capture_output=True, text=True)
+        mout = mr.stdout.split("\n")
+        if mr.returncode != 0 or len(mout) < len(lines):
+            return prop, [(None, f"model driver failed on readx rc={mr.returncode} {mr.stderr[-300:]}")]
+        li = 0
+        for tc, tag, over, rd, rec, words in cases:
+            for strict in (0, 1):
+                reply = mout[li]; li += 1
+                text = (f"ISO-10303-21;\nHEADER;\nFILE_DESCRIPTION((''),'2;1');\nFILE_NAME('','',(''),(''),'','','');\n"
+                        f"FILE_SCHEMA(('CXR'));\nENDSEC;\nDATA;\n{rec}\nENDSEC;\nEND-ISO-10303-21;\n")
+                path = os.path.join(workdir, "cx.p21")
+                open(path, "w").write(text)
+                h.cmd(f"reset {strict}")
+                r = kv(h.cmd(f"{'read' if tc else 'readpre'} {path}"))
+                d = parse_dump(h.cmd("dump"))
+                st = d[0][2] if d else "absent"
+                bits = None
+                if d:
+                    bits = ",".join("".join("0" if w.split("/")[2] == "-" else "1" for w in g.split()[1:] if w.count("/") == 2 and w.split("/")[1] == "0")
+                                    for g in h.cmd("vals 0")[1:].split("|") if g.split())
+                enc = "technical-corrigendum" if tc else "pre-technical-corrigendum"
+                ctx.count(1, key=("cxr", tc, tag, strict))
+                ctx.hist("complex parts with redefining entries", f"{enc}: " + ("conforming" if tag == "conforming" else "redefining entry not `*`" if rd else "position unset"))
+                info = {"pretc": True, "tag": f"complex part with redefining entry, {enc}: {tag}", "strict": bool(strict), "file": text, "kind": "pretc",
+                        "idx": 0, "pop": [], "schema_express_override": CXR_EXPRESS, "readcmd": "read" if tc else "readpre"}
+                exit1 = SEV_RANK[r["sev"]] <= SEV_RANK[exit_thr]
+                what = None
+                if tag == "conforming":
+                    if exit1 or st != "completeSE" or r["sev"] != "NULL":
+                        what = f"{enc} encoding, conforming complex instance with a redefining entry: severity {r['sev']}, state {st}"
+                elif over:
+                    pi, ai, dollar = over
+                    nm, base, opt, _ = CXR_PARTS[pi][1][ai]
+                    obs = {"sev": r["sev"], "states": [st]}
+                    if not opt and not strict and dollar and base in SUBST:
+                        val = memory_value(h, 0, nm)
+                        ok = val is not None and val[0] == "tok" and G.tok_equal(val[1], SUBST[base])
+                        if exit1 or r["sev"] != "USERMSG" or not ok:
+                            what = (f"{enc} encoding, lenient mode, `$` for required {base} ({CXR_PARTS[pi][0].lower()}.{nm}): severity {r['sev']}, state {st}, "
+                                    f"value in memory {val!r}; expected a user message and {SUBST[base]}")
+                    else:
+                        what = oracle(base, opt, bool(strict), obs, 0, exit_thr, None, dollar)
+                        if what:
+                            what = f"{enc} encoding, complex part with a redefining entry: " + what
+                elif rd and (not exit1 or st == "completeSE"):
+                    what = f"{enc} encoding, {tag} instead of `*`: read accepted (severity {r['sev']}, state {st})"
+                if what:
+                    prop.append((info, what))
+                mm = reply.split(" | ") if reply.startswith("F ") else None
+                if not mm or len(mm) != 2:
+                    corr.append((info, f"complex/redefining {tag}: model reply {reply!r}"))
+                    continue
+                mh, (msev, mst, mbits) = kv(mm[0]), mm[1].strip().split("/")
+                diff = None
+                if mh["sev"] != r["sev"]:
+                    diff = f"file severity impl {r['sev']} model {mh['sev']}"
+                elif mst != st:
+                    diff = f"state impl {st} model {mst}"
+                elif bits is not None and not rd and bits != mbits:
+                    diff = f"attributes holding a value afterwards: impl {bits} model {mbits}"
+                if diff:
+                    corr.append((info, f"complex part with redefining entry, {enc}, {tag} (strict={strict}) `{rec}`: {diff}"))
+    finally:
+        h.close()
+    return prop, corr
+
+
 def decode_model(reply):
     """F sev=.. exit=.. | sev/state/p.a=words,.. | ..."""
     if not reply.startswith("F "):
@@ -727,7 +863,9 @@ def run_schema(ctx, b, schema, pop, workdir, exe, p21read, model_exe, exit_thr, 
 
 def key_of(info):
     if info.get("pretc"):
-        cls = "conforming" if info["tag"] == "conforming" else ("redefining-entry-not-star" if "redefining entry" in info["tag"] else "position-unset")
+        cls = "conforming" if info["tag"].endswith("conforming") else ("redefining-entry-not-star" if "given `" in info["tag"] else "position-unset")
+        if info.get("schema_express_override"):
+            cls = "complex-" + cls + ("-tc" if info.get("readcmd") == "read" else "-pretc")
         return f"pretc:{cls}:{'strict' if info['strict'] else 'lenient'}"
     if info.get("p21read_flags") is not None:
         return "p21read-flags:" + ("+".join(info["p21read_flags"]) or "none")
@@ -744,8 +882,10 @@ def key_of(info):
 
 def minimal_replay(schema, info):
     if info.get("pretc"):
-        return {"schema_express": schema.express(), "schema_name": schema.name, "file": info["file"], "strict": info["strict"],
-                "pretc": info["tag"], "expect": ("clean" if info["tag"] == "conforming" else "rejected" if "redefining entry" in info["tag"] else "table"),
+        return {"schema_express": info.get("schema_express_override") or schema.express(),
+                "schema_name": "cxr" if info.get("schema_express_override") else schema.name, "readcmd": info.get("readcmd", "readpre"),
+                "file": info["file"], "strict": info["strict"],
+                "pretc": info["tag"], "expect": ("clean" if info["tag"].endswith("conforming") else "rejected" if "given `" in info["tag"] else "table"),
                 "how": "exp2cxx the schema, link harness/h_p21.cc with it, `reset <strict>`, `readpre FILE` "
                        "(= ReadExchangeFile( FILE, useTechCor = false )), `dump`, `vals 0`"}
     pop = info["pop"]
@@ -846,6 +986,20 @@ def run(ctx):
             reported = True
         if reported and len(ctx.violations) >= 6:
             break
+    # complex instances whose parts carry redefining entries (directed schema), both encodings
+    if not ctx.violations:
+        pp, pc = complex_redecl_cases(ctx, b, model_exe, os.path.join(ctx.work, "cxr"), exit_thr)
+        ctx.cov["correspondence"]["cxr"] = {"property_problems": len(pp), "correspondence_problems": len(pc)}
+        seen = set()
+        for info, what in pp:
+            k = key_of(info)
+            if k not in seen:
+                seen.add(k)
+                ctx.violation(k, what, minimal_replay(schemas[0][0], info))
+        if not pp and pc:
+            info, what = pc[0]
+            ctx.broken.append(("correspondence AttrNull model vs STEPcomplex::STEPread (parts with redefining entries)",
+                               f"{what}; {len(pc)} disagreeing inputs"))
     if schemas:
         s, pop = schemas[0]
         ctx.sample({"schema": s.express()[:1200]})
@@ -885,7 +1039,7 @@ def replay(ctx, path):
             return
         if r.get("pretc"):
             h.cmd(f"reset {1 if r['strict'] else 0}")
-            rr = kv(h.cmd(f"readpre {f}"))
+            rr = kv(h.cmd(f"{r.get('readcmd', 'readpre')} {f}"))
             dd = parse_dump(h.cmd("dump"))
             st = dd[0][2] if dd else "absent"
             print("readpre:", rr, "state", st, h.cmd("vals 0"))
